@@ -633,11 +633,13 @@ func (fc *followerController) SendSnapshot(stream proto.OxiaLogReplication_SendS
 	return closeStreamWg.Wait(fc.ctx)
 }
 
-func (fc *followerController) readSnapshotStream(stream proto.OxiaLogReplication_SendSnapshotServer, loader kv.SnapshotLoader) (int64, error) {
+// readSnapshotStream consumes the snapshot chunks, starting from the chunk (or error) that was
+// already received from the stream.
+func (fc *followerController) readSnapshotStream(stream proto.OxiaLogReplication_SendSnapshotServer,
+	snapChunk *proto.SnapshotChunk, err error, loader kv.SnapshotLoader) (int64, error) {
 	var totalSize int64
 
-	for {
-		snapChunk, err := stream.Recv()
+	for ; ; snapChunk, err = stream.Recv() {
 		switch {
 		case err != nil:
 			if errors.Is(err, io.EOF) {
@@ -677,6 +679,19 @@ func (fc *followerController) handleSnapshot(stream proto.OxiaLogReplication_Sen
 	fc.Lock()
 	defer fc.Unlock()
 
+	// Look at the first chunk before discarding anything: a snapshot that does not
+	// belong to the current term (e.g. sent by a deposed leader), or a stream that
+	// ends before the first chunk, must leave the WAL and the DB untouched
+	firstChunk, recvErr := stream.Recv()
+	if recvErr != nil || firstChunk == nil {
+		fc.closeStreamNoMutex(recvErr)
+		return
+	}
+	if fc.term != wal.InvalidTerm && firstChunk.Term != fc.term {
+		fc.closeStreamNoMutex(constant.ErrInvalidTerm)
+		return
+	}
+
 	// Wipe out both WAL and DB contents
 	err := fc.wal.Clear()
 	if err != nil {
@@ -702,7 +717,7 @@ func (fc *followerController) handleSnapshot(stream proto.OxiaLogReplication_Sen
 
 	defer loader.Close()
 
-	totalSize, err := fc.readSnapshotStream(stream, loader)
+	totalSize, err := fc.readSnapshotStream(stream, firstChunk, recvErr, loader)
 	if err != nil {
 		return
 	}
